@@ -252,9 +252,12 @@ class Spec(EvalableModel):
             if not isinstance(leaf, Component):
                 continue
 
-            global_fanout = 1
+            # Number of instances: the component's own fanout times the fanouts of the
+            # nodes above it. A Compute is a leaf beside the main path, so it is not
+            # above the nodes that follow it.
+            global_fanout = leaf.get_fanout()
             for p in parents:
-                if isinstance(p, Spatialable):
+                if isinstance(p, Spatialable) and not isinstance(p, Compute):
                     global_fanout *= p.get_fanout()
 
             orig: Component = self.arch.find(leaf.name)
